@@ -422,11 +422,21 @@ class CallMixin(object):
         if isinstance(it, TupleT):
             return ListObj(list(it.items), False, self.cur, kind)
         out = ListObj([], True, self.cur, kind)
+        # a generator whose body is a straight line of yields gives an exact sequence
+        exact = kind == 'list' and isinstance(it, GenObj) and not it.consumed and \
+            isinstance(getattr(it.func, 'node', None), ast.FunctionDef) and all(
+                isinstance(st, (ast.Expr, ast.Assign, ast.Pass)) and
+                not (isinstance(st, ast.Expr) and isinstance(st.value, ast.YieldFrom)) and
+                not (isinstance(st, ast.Assign) and any(
+                    isinstance(x, (ast.Yield, ast.YieldFrom)) for x in ast.walk(st)))
+                for st in it.func.node.body)
 
         def per_item(val):
-            if not any(val is x or val == x for x in out.items):
+            if exact or not any(val is x or val == x for x in out.items):
                 out.items.append(val)
         self.iterate(it, per_item, set(), node)
+        if exact and out.items:
+            out.open = False
         if not out.items:
             out.items.append(Elem(it)) if not isinstance(it, (GenObj, Phi)) else None
         return out
@@ -658,6 +668,11 @@ class CallMixin(object):
     def ext_itertools_chain_from_iterable(self, args, kwargs, node):
         return Call('itertools.chain.from_iterable', tuple(args), (), None)
 
+    def ext_itertools_starmap(self, args, kwargs, node):
+        if len(args) != 2:
+            return NotImplemented
+        return Call('itertools.starmap', tuple(args), (), None)      # lazy: see iterate
+
     def ext_next(self, args, kwargs, node):
         """next(it[, default]): the iterator is advanced to its first element."""
         if not args:
@@ -667,6 +682,10 @@ class CallMixin(object):
         results = []
 
         def first(val):
+            # (the alternative is tied to *this* hand-over, not to where the element
+            # was produced: the default competes with the yield, not with that site)
+            if isinstance(val, Phi):
+                val = Phi([(a, self.cur) for a, _ in val.alts])
             results.append((val, self.cur))
             self.goto(end)
         self.iterate(it, first, set(), node)
